@@ -78,7 +78,7 @@ func negativeTwin(ev string) string {
 }
 
 func checkC10(c *Ctx) {
-	c.Rule = "two key-generation rounds with the same participants run concurrently on one board (one message per poll, snapshot after every step), each followed by a signing batch. For every (genuine message g by participant P, consuming node) pair, in the exact state in which the node awaits it: (a) every other participant S posts the same payload - and the phase's failure event naming P - under its own name and signature: nothing recorded for P and not the round state may change; (b) the counterpart message of the other round (same sender, same event) is re-posted under this round's id, and g itself is re-posted under every other event name: must be rejected without any change. (b5/b6) the cross-event replays are repeated in every later state of the round and right after the node consumed the genuine message (finding keys tell replays before and after the genuine one apart). (b7) a stranger's own round (the participants' names registered with her key) posting signature broadcasts that name a real round: nothing in the real rounds may change. A round cancelled by a decline and proposed again under the same id for the others: the one left out must not be able to answer in the name of the participant who now holds his index. distinct = distinct (family, event, state) cases"
+	c.Rule = "two key-generation rounds with the same participants run concurrently on one board (one message per poll, snapshot after every step), each followed by a signing batch. For every (genuine message g by participant P, consuming node) pair, in the exact state in which the node awaits it: (a) every other participant S posts the same payload - and the phase's failure event naming P - under its own name and signature: nothing recorded for P and not the round state may change; (b) the counterpart message of the other round (same sender, same event) is re-posted under this round's id, and g itself is re-posted under every other event name: must be rejected without any change. (b5/b6) the cross-event replays are repeated in every later state of the round and right after the node consumed the genuine message (finding keys tell replays before and after the genuine one apart). (b7) a stranger's own round (the participants' names registered with her key) posting signature broadcasts that name a real round: nothing in the real rounds may change. A round cancelled by a decline and proposed again under the same id for the others: the one left out must not be able to answer in the name of the participant who now holds his index. A forged message read again by the running node (the repository's own Poll loop) after the operator rewound its read position must be refused again. distinct = distinct (family, event, state) cases"
 	c.Assumptions = []string{"MemState substituted for LevelDB", "re-posted messages keep their genuine signature (it covers the payload bytes)"}
 	cfgs := []ntCase{{3, 2}, {2, 2}}
 	if c.Thorough() {
@@ -87,6 +87,9 @@ func checkC10(c *Ctx) {
 	Parallel(len(cfgs), 4, func(i int) { runC10(c, cfgs[i].N, cfgs[i].T, c.Seed*77+uint64(i)) })
 	for i := 0; i < c.Pick(1, 4); i++ {
 		c10Reproposal(c, c.Seed*79+uint64(i))
+	}
+	for i := 0; i < c.Pick(1, 3); i++ {
+		c10RewoundLog(c, c.Seed*83+uint64(i))
 	}
 }
 
@@ -642,5 +645,94 @@ func c10Reproposal(c *Ctx, seed uint64) {
 			}
 		}
 		c.Add("re-proposed_rounds_judged", 1)
+	}
+}
+
+// c10RewoundLog: a message in P's name under S's signature is refused when the running node first reads it.
+// The operator then rewinds the read position of that running node (save_offset 0; the repository's own
+// Poll() loop is running the whole time) so that the log is read again: the forged message must be refused
+// again - nothing recorded in the round may differ from before the rewind - and P's genuine message must
+// still be accepted afterwards.
+func c10RewoundLog(c *Ctx, seed uint64) {
+	w, err := world.NewWorld(world.Options{N: 3, T: 2, Seed: seed})
+	if err != nil {
+		c.Inconclusive("rewound-log world: %v", err)
+		return
+	}
+	defer w.Close()
+	v := w.Nodes[0]
+	round, err := w.StartDKG(0, 2, now())
+	if err != nil {
+		c.Inconclusive("rewound-log world: %v", err)
+		return
+	}
+	P, S := w.Nodes[1], w.Nodes[2]
+	forged := world.SignMsg(S, round, EvConfirm, mkReq(requests.SignatureProposalParticipantRequest{ParticipantId: P.Idx, CreatedAt: now()}), "")
+	forged.SenderAddr = P.Name
+	_ = w.Board.Send(forged)
+	wit := map[string]interface{}{"family": "forged message read again after the read position was rewound on the running node", "claimed_participant": P.Name, "signed_by": S.Name, "case_seed": seed}
+	errc := make(chan error, 1)
+	go func() { errc <- v.Svc.Poll() }()
+	stop := func() {
+		if v.Cancel != nil {
+			v.Cancel()
+		}
+		select {
+		case <-errc:
+		case <-time.After(10 * time.Second):
+		}
+	}
+	defer stop()
+	waitOff := func(target int) bool {
+		for i := 0; i < 3000; i++ { // pacing only: a miss is inconclusive
+			if off, err := v.State.LoadOffset(); err == nil && int(off) >= target {
+				return true
+			}
+			time.Sleep(10 * time.Millisecond)
+		}
+		return false
+	}
+	if !waitOff(w.Board.Len()) {
+		c.Inconclusive("rewound-log world: the Poll loop did not reach the end of the board")
+		return
+	}
+	time.Sleep(50 * time.Millisecond)
+	offKey := world.Topic + "_offset"
+	before := v.Mem.Snapshot()
+	projBefore := Projection(v, round, oracle.ProjOpts{})
+	for rewinds := 0; rewinds < 2; rewinds++ {
+		if err := viaREST(v).SaveOffset(0); err != nil {
+			c.Inconclusive("rewound-log world: save_offset: %v", err)
+			return
+		}
+		// the loop reads the whole board again
+		time.Sleep(30 * time.Millisecond)
+		if !waitOff(w.Board.Len()) {
+			c.Inconclusive("rewound-log world: the Poll loop did not reach the end of the board after the rewind")
+			return
+		}
+		time.Sleep(50 * time.Millisecond)
+		c.Eval(1)
+		c.Add("logs_read_again_by_a_running_node_after_a_rewind", 1)
+		c.Distinct(fmt.Sprintf("rewound-log|rewind=%d", rewinds+1))
+		after := v.Mem.Snapshot()
+		if p := Projection(v, round, oracle.ProjOpts{}); p != projBefore {
+			c.Violate("C10/forged-message-effective-after-rewind", fmt.Sprintf("a confirmation in %s's name signed by %s was refused at first; after the operator rewound the read position of the running node (rewind %d) the round changed: %s", P.Name, S.Name, rewinds+1, diffLines(projBefore, p)), wit)
+			return
+		}
+		if d := world.DiffMaps(before, after, offKey); len(d) > 0 {
+			c.Violate("C10/forged-message-effective-after-rewind", fmt.Sprintf("reading the same log again on the running node changed %v", d), wit)
+			return
+		}
+	}
+	// P's own confirmation is still welcome
+	_ = w.Board.Send(world.SignMsg(P, round, EvConfirm, mkReq(requests.SignatureProposalParticipantRequest{ParticipantId: P.Idx, CreatedAt: now()}), ""))
+	if !waitOff(w.Board.Len()) {
+		c.Inconclusive("rewound-log world: the Poll loop did not take the genuine confirmation")
+		return
+	}
+	time.Sleep(50 * time.Millisecond)
+	if p := Projection(v, round, oracle.ProjOpts{}); p == projBefore {
+		c.Violate("C10/genuine-message-refused-after-forgery", fmt.Sprintf("%s's own confirmation changed nothing after the forged one had been read (twice more after rewinds)", P.Name), wit)
 	}
 }
